@@ -248,7 +248,10 @@ class MirOb:
                  bounds="full width of the input types; loop-free", outside=None, tier="quick", modes=("dev", "release"),
                  panic_ok=None, min_paths=1, probes=None, loop_bound=8, out_of_ref=None, uf_mul=False, timeout_ms=30000,
                  eval_out=None, ret_shape="Duration", native_refs=None, pin_vars=None, summaries=None, summaries_concrete=None,
-                 loop_contracts=None, on_loop_failure=None, nprobe=None, feas_timeout_ms=None, validate_key=None):
+                 loop_contracts=None, on_loop_failure=None, nprobe=None, feas_timeout_ms=None, validate_key=None, probe_witness=False):
+        # opt-in: use boundary probes that violate the post-condition natively as witnesses when the solver answers `unknown`.
+        # Only for obligations whose concrete judging was checked to flag no probe on the unchanged tree.
+        self.probe_witness = probe_witness
         self.validate_key = validate_key   # native eval key used for translator validation when it differs from the judging key
         self.feas_timeout_ms = feas_timeout_ms
         self.loop_contracts = loop_contracts or []
@@ -599,12 +602,29 @@ def validate_translation(eng, ob, fn_item, nat, seed, n):
     bad, cnt = [], 0
     saved_excl, eng.exclusions = eng.exclusions, []   # validation runs the real (possibly defective) code on every input
     try:
-        return _validate_translation(eng, ob, fn_item, nat, seed, n)
+        return _validate_translation(eng, ob, fn_item, nat, seed, n, saved_excl)
     finally:
         eng.exclusions = saved_excl
 
 
-def _validate_translation(eng, ob, fn_item, nat, seed, n):
+def _in_known_finding_class(eng, ob, fn_item, vals, saved_excl):
+    """does the concrete execution on these inputs pass through a call class that an open known finding excludes?"""
+    if not saved_excl:
+        return False
+    if any(fn_item.name.endswith(sfx) for sfx, _p, _k in saved_excl):
+        return True    # the function under test itself carries an open finding: its probes are never used as witnesses
+    cur = eng.exclusions
+    eng.exclusions = saved_excl
+    try:
+        ends, _, _, _ = run_sym(eng, ob, fn_item, subst_vals=vals)
+        return any(e.kind == "excluded" for e in ends)
+    except Exception:
+        return True    # cannot tell: do not use this probe as a witness
+    finally:
+        eng.exclusions = cur
+
+
+def _validate_translation(eng, ob, fn_item, nat, seed, n, saved_excl=()):
     bad, cnt = [], 0
     _, allvars, _, _, _ = build_args(ob)
     for vals in probes_for(ob, seed, n):
@@ -630,7 +650,8 @@ def _validate_translation(eng, ob, fn_item, nat, seed, n):
         # unsat does), but they provide a replayable witness when the solver later answers `unknown` on a violated query
         try:
             jl = theirs if not getattr(ob, "validate_key", None) else nat(ob.eval_key, native_args(ob, allvars, vals))
-            if len(getattr(ob, "_probe_ces", [])) < 3 and judge_native(ob, allvars, vals, jl):
+            if len(getattr(ob, "_probe_ces", [])) < 3 and judge_native(ob, allvars, vals, jl) \
+                    and not _in_known_finding_class(eng, ob, fn_item, vals, saved_excl):
                 ob.__dict__.setdefault("_probe_ces", []).append({"inputs": dict(vals), "native": jl, "mode": eng.mode})
         except Exception:
             pass
@@ -889,7 +910,7 @@ def run_obligations(obs, tier, seed, need_replay, build_info):
                     eng.solver_s += time.time() - tq
                 for e, what, goal, r, m in solved:
                     if r == z3.unknown:
-                        pcs = getattr(ob, "_probe_ces", [])
+                        pcs = getattr(ob, "_probe_ces", []) if getattr(ob, "probe_witness", False) else []
                         if pcs and rec["verdict"] != "violation":
                             # the solver gave up on this query, but a boundary probe already violates the post-condition natively
                             for pc_ in pcs[:2]:
@@ -976,6 +997,7 @@ def run_obligations(obs, tier, seed, need_replay, build_info):
         rec["solver_s"] = round(rec["solver_s"], 3)
         rec["wall_s"] = round(time.time() - t1, 2)
         rec["counterexamples"] = rec["counterexamples"][:4]
+        rec["probes_violating_natively"] = len(getattr(ob, "_probe_ces", []))
         rec.pop("_loop_models", None); rec.pop("_followed", None)
         results.append(rec)
     for n in nats.values():
